@@ -36,7 +36,7 @@ def sweep_cases(ctx: core.Ctx, rnd: random.Random, gens: list, repeats: int, *, 
                       "label": anncases.label(file=fname, entry=tag, body=kind, bundle=b["name"], flavour=flavour)})
 
     bodies = ["empty", "code", "comment", "shebang"]
-    bundle_cycle = [by_name[n] for n in ("B1", "B9", "B6", "B2", "B3", "B4", "B7") if n in by_name]
+    bundle_cycle = [by_name[n] for n in ("B1", "B9", "B6", "B2", "B3", "B4", "B7", "B11", "B5") if n in by_name]
     for i, (fname, sname, tag) in enumerate(table):
         st = styles.get(sname)
         for j, kind in enumerate(bodies):
